@@ -16,104 +16,9 @@
 (* schema-driven Serialize / Deserialize implementation (dynser.rs).       *)
 (* SerdeModel!SerTree predicts the logical document (or Fail).             *)
 (***************************************************************************)
-EXTENDS SerdeTypes, TLC, Json
+EXTENDS SchemaGen, TLC, Json
 
 CONSTANTS MaxFields, Emit
-
-Odd(j) == j % 2 = 1
-UNITE == [t |-> "unit", names |-> {n_Alpha, n_Beta}]
-S_ATTR == Struct(<<Fld(n_k, "attr", NUM)>>)                       \* <x k="7"/>
-S_ELEM == Struct(<<Fld(<<120>>, "elem", STR)>>)                   \* <x><x>..</x></x>  (child named like a possible parent)
-S_LIST == Struct(<<Fld(n_item, "elem", List(STR))>>)
-LeafStructs == {ITEM, S_ATTR, S_ELEM, S_LIST}
-
-\* a string that reaches the serializer through collect_str (a Display type): the same data, another entry point
-STRD == [t |-> "str", disp |-> 1]
-\* items of attribute lists may contain white space (written as character references)
-STRW == [t |-> "str", ws |-> 1]
-AttrT == {STR, STRD, NUM, BOOL, FLOAT, UNITE, Opt(STR), SList(STR), SList(STRW), SList(NUM), SList(STRD)}
-ElemT == {STR, STRD, NUM, BOOL, UNITE, Opt(STR), Opt(NUM), List(STR), List(NUM)}
-         \cup LeafStructs \cup {Opt(s) : s \in LeafStructs} \cup {List(s) : s \in LeafStructs}
-TextT == {STR, STRD, NUM, SList(STR), Opt(STR)}
-ValueT == {CHOICE, CHOICE2, Opt(CHOICE), List(CHOICE), List(CHOICE3), List(Opt(CHOICE))}
-
-AttrKeys == << <<97>>, <<98>> >>          \* a b
-ElemKeys == << <<99>>, <<97>> >>          \* c a   (an element may share its name with an attribute)
-
-\* ---------------------------------------------------------------- the i-th canonical value of a type (i in 1..2)
-RECURSIVE ValOf(_, _), ItemOf(_, _), EnumVal(_, _)
-ValOf(T, i) ==
-    CASE T.t = "str" -> IF i = 1 THEN S(<<97, 60, 38>>) ELSE S(<<>>)                       \* "a<&"  ""
-      [] T.t = "num" -> IF i = 1 THEN Nm(<<55>>) ELSE Nm(<<48>>)
-      [] T.t = "bool" -> [b |-> IF i = 1 THEN 1 ELSE 0]
-      [] T.t = "float" -> [f |-> IF i = 1 THEN <<49, 46, 53>> ELSE <<45, 48, 46, 50, 53>>]
-      [] T.t = "unit" -> [u |-> IF i = 1 THEN n_Alpha ELSE n_Beta]
-      [] T.t = "opt" -> IF i = 1 THEN ValOf(T.of, 1) ELSE None
-      [] T.t = "list" -> IF i = 1 THEN A(<<ValOf(T.of, 1), ValOf(T.of, 2)>>) ELSE A(<<>>)
-      [] T.t = "slist" -> IF i = 1 THEN A(<<ItemOf(T.of, 1), ItemOf(T.of, 2)>>) ELSE A(<<>>)
-      [] T.t = "struct" -> O([j \in 1..Len(T.fields) |-> <<JKey(T.fields[j]), ValOf(T.fields[j].ty, i)>>])
-      [] T.t = "enum" -> EnumVal(T, i)
-      [] OTHER -> None
-\* items of space-separated lists: non-empty, no blanks
-ItemOf(T, i) == IF T.t = "num" THEN ValOf(T, i) ELSE IF i = 1 THEN S(<<97>>) ELSE IF "ws" \in DOMAIN T THEN S(<<60, 34, 13, 32>>) ELSE S(<<60, 34>>)     \* a  <"  (+ CR SP in attribute lists)
-\* first: the first variant; second: the text variant if there is one, else the last variant
-EnumVal(T, i) ==
-    LET pick == IF i = 1 THEN 1
-                ELSE LET tx == {j \in 1..Len(T.variants) : T.variants[j].kind = "text"} IN
-                     IF tx # {} THEN CHOOSE j \in tx : TRUE ELSE Len(T.variants)
-        var == T.variants[pick] IN
-    IF var.kind = "unit" THEN [u |-> var.name]
-    ELSE IF var.kind = "text" THEN [v |-> var.name, x |-> S(<<116, 38>>)]                  \* "t&"
-    ELSE [v |-> var.name, x |-> ValOf(var.ty, 1)]
-\* the value of the j-th variant
-VariantVal(T, j) ==
-    LET var == T.variants[j] IN
-    IF var.kind = "unit" THEN [u |-> var.name]
-    ELSE IF var.kind = "text" THEN [v |-> var.name, x |-> S(<<116, 38>>)]
-    ELSE [v |-> var.name, x |-> ValOf(var.ty, 1)]
-\* list-of-choice values: every variant once, in declaration order (text variants are declared last, so no two text items
-\* are adjacent - the serializer cannot delimit them), then the first variant again; or a single text / last item
-ListChoice(T, i) ==
-    IF i = 1 THEN A([j \in 1..(Len(T.of.variants) + 1) |-> IF j <= Len(T.of.variants) THEN VariantVal(T.of, j) ELSE VariantVal(T.of, 1)])
-    ELSE \* the second value: the text item (if any) in front of every other variant: text, v1, text, v2, ...
-         LET tx == {j \in 1..Len(T.of.variants) : T.of.variants[j].kind = "text"} IN
-         IF tx = {} THEN A(<<EnumVal(T.of, 2)>>)
-         ELSE LET t == CHOOSE j \in tx : TRUE
-                  others == SelectSeq([j \in 1..Len(T.of.variants) |-> j], LAMBDA j : j # t) IN
-              A(Flatten([j \in 1..Len(others) |-> <<VariantVal(T.of, t), VariantVal(T.of, others[j])>>]))
-\* ... and a list of OPTIONAL choices also holds an absent item between a text and an element
-ListOptChoice(T) == A(<<EnumVal(T.of.of, 1), EnumVal(T.of.of, 2), None, EnumVal(T.of.of, 1)>>)
-ContentVal(T, i) ==
-    IF T.t = "list" /\ T.of.t = "opt" THEN (IF i = 1 THEN ListOptChoice(T) ELSE A(<<None>>))
-    ELSE IF T.t = "list" /\ T.of.t = "enum" THEN ListChoice(T, i)
-    ELSE ValOf(T, i)
-
-\* ---------------------------------------------------------------- schemas
-\* sch = [attrs: Seq(AttrT), elems: Seq(ElemT), content: <<>> | <<kind, ty>>, order: "ae" | "ea"]
-FieldsOf(sch) ==
-    LET as == [j \in 1..Len(sch.attrs) |-> Fld(AttrKeys[j], "attr", sch.attrs[j])]
-        es == [j \in 1..Len(sch.elems) |-> Fld(ElemKeys[j], "elem", sch.elems[j])]
-        cs == IF sch.content = <<>> THEN <<>>
-              ELSE <<Fld(IF sch.content[1] = "text" THEN n_text ELSE n_value, sch.content[1], sch.content[2])>> IN
-    IF sch.order = "ae" THEN as \o es \o cs ELSE es \o cs \o as
-TypeOfSch(sch) == Struct(FieldsOf(sch))
-NFields(sch) == Len(sch.attrs) + Len(sch.elems) + (IF sch.content = <<>> THEN 0 ELSE 1)
-\* the four values of a schema: all first, all second, alternating
-ValueOfSch(sch, k) ==
-    LET fs == FieldsOf(sch)
-        idx(j) == CASE k = 1 -> 1 [] k = 2 -> 2 [] k = 3 -> (IF Odd(j) THEN 1 ELSE 2) [] OTHER -> (IF Odd(j) THEN 2 ELSE 1) IN
-    O([j \in 1..Len(fs) |-> <<JKey(fs[j]), IF fs[j].kind \in {"text", "value"} THEN ContentVal(fs[j].ty, idx(j)) ELSE ValOf(fs[j].ty, idx(j))>>])
-
-\* the documented round-trippable domain (C06): text content only without child elements; a choice with a text variant
-\* only without child elements; no Option inside text content or inside lists (an absent item leaves no trace); strings in
-\* element / text position have no leading or trailing blanks (the canonical values have none)
-HasTextVariant(T) == LET E == IF T.t \in {"opt", "list"} THEN (IF T.of.t = "opt" THEN T.of.of ELSE T.of) ELSE T IN
-                     E.t = "enum" /\ \E j \in 1..Len(E.variants) : E.variants[j].kind = "text"
-InRT(sch) ==
-    /\ sch.content # <<>> /\ sch.content[1] = "text" => sch.elems = <<>> /\ sch.content[2].t # "opt"
-    /\ sch.content # <<>> /\ sch.content[1] = "value" =>
-          /\ ~(sch.content[2].t = "list" /\ sch.content[2].of.t = "opt")
-          /\ (HasTextVariant(sch.content[2]) => sch.elems = <<>>)
 
 VARIABLES sch, k
 mvars == <<sch, k>>
